@@ -50,8 +50,8 @@ def run_driver(script, variant="plain", env=None, timeout=600, stderr_path=None)
     e = dict(os.environ)
     if variant.startswith("asan"):
         e.update(ASAN_ENV)
-    if variant == "tsan":
-        e["TSAN_OPTIONS"] = "halt_on_error=0:report_signal_unsafe=0:exitcode=0"
+    if variant.startswith("tsan"):
+        e["TSAN_OPTIONS"] = "halt_on_error=0:report_signal_unsafe=0:exitcode=0:history_size=7:io_sync=0"
     if env:
         e.update(env)
     err = open(stderr_path, "wb") if stderr_path else subprocess.DEVNULL
